@@ -411,14 +411,27 @@ impl Interp {
                     out.push_str(&s);
                     out.push(',');
                 }
-                for k in tb.iteration_keys().into_iter().skip(n) {
+                // the identity numbers must not depend on the order in which the keys were inserted: the keys are ordered
+                // first (by a rendering that consumes no number), then keys and values are rendered in that order
+                let mut keys: Vec<(String, Value)> = tb
+                    .iteration_keys()
+                    .into_iter()
+                    .skip(n)
+                    .map(|k| {
+                        let mut probe = seen.clone();
+                        let mut ks = String::new();
+                        self.ser(&k, &mut probe, &mut ks, depth + 1);
+                        (ks, k)
+                    })
+                    .collect();
+                keys.sort_by(|a, b| a.0.cmp(&b.0));
+                for (_, k) in keys {
                     let mut ks = String::new();
                     self.ser(&k, seen, &mut ks, depth + 1);
                     let mut vs = String::new();
                     self.ser(&tb.get(&k), seen, &mut vs, depth + 1);
                     entries.push((ks, vs));
                 }
-                entries.sort();
                 for (k, v) in entries {
                     out.push_str(&format!("[{}]={},", k, v));
                 }
